@@ -71,6 +71,17 @@ for fld, dom in DOMAIN_V1.items():
                               ensures=[("in-domain", f"{fld} in {dom!r} and result.{fld} == {fld}")],
                               raises=[(OFXHeaderError, f"{fld} not in {dom!r}", "must")],
                               notes=f"v1 field {fld}", props=["C12"]))
+# two fields at once: an unusable token in one field is refused whatever the (valid) value of another field is
+for other, ovals in (("encoding", ("USASCII", "UNICODE", "UTF-8")), ("security", ("NONE", "TYPE1"))):
+    for fld, dom in DOMAIN_V1.items():
+        if fld == other:
+            continue
+        args = [IntArg("version", 100, 199)] + [Const(f, None) if f not in (fld, other) else (tok(fld) if f == fld else OneOfArg(other, list(ovals))) for f in V1F] + [Const("oldfileuid", None), Const("newfileuid", None)]
+        CONTRACTS.append(Contract("ofxtools.header:OFXHeaderV1.__init__", args=args,
+                                  call=lambda it, fn, a: (OFXHeaderV1(*a) if it is None else it.call(OFXHeaderV1, list(a), {})),
+                                  ensures=[("in-domain", f"{fld} in {dom!r} and result.{fld} == {fld} and result.{other} == {other}")],
+                                  raises=[(OFXHeaderError, f"{fld} not in {dom!r}", "must")],
+                                  notes=f"v1 field {fld} with {other} varied", props=["C12"]))
 # OFXHEADER of the wrong kind, version digits
 CONTRACTS.append(Contract("ofxtools.header:OFXHeaderV1.__init__",
                           args=[IntArg("version", 100, 199), IntArg("ofxheader", 1, 100000)],
